@@ -18,6 +18,8 @@ void ft_post(int id, int cmd, int arg, int n, int kind);
 int ft_result(int id);
 int ft_ncalls(int id);
 int ft_seen_after(int id);
+void ft_arm_atexit(void);
+int ft_is_waiting(int id);
 void ft_set_callbacks(int (*on_idle)(int), int (*cb)(int, int));
 int count_tstates(void);
 int call_cb_from_here(int id, int arg, int kind);
@@ -27,11 +29,17 @@ extern "Python" int xp_cb(int, int);
 
 SRC = r"""
 #include <pthread.h>
+#include <semaphore.h>
 #include <stdint.h>
+#include <stdlib.h>
+#include <unistd.h>
 #include <errno.h>
 #define MAXT 64
 #define CMD_CALL 1
 #define CMD_EXIT 2
+#define CMD_BLOCK 3      /* block in C (no Python involved) until the libc atexit handler joins us */
+static sem_t exit_sem[MAXT];
+static volatile int waiting[MAXT];
 typedef struct { pthread_t th; volatile int cmd, arg, n, kind; volatile int result, ncalls, seen_after; int started; } ft_t;
 static ft_t fts[MAXT];
 static int (*g_on_idle)(int);
@@ -53,6 +61,7 @@ static void *ft_main(void *p)
     for (;;) {
         g_on_idle(id);                      /* parks in Python until scheduled */
         if (fts[id].cmd == CMD_EXIT) break;
+        if (fts[id].cmd == CMD_BLOCK) { waiting[id] = 1; sem_wait(&exit_sem[id]); break; }
         if (fts[id].cmd == CMD_CALL) {
             for (i = 0; i < fts[id].n; i++) {
                 if (fts[id].kind >= 3) {            /* errno-carrying call (C22): kind 3 libffi, 4 extern "Python" */
@@ -73,6 +82,7 @@ int ft_start(int id)
 {
     if (id < 0 || id >= MAXT || fts[id].started) return -1;
     fts[id].started = 1; fts[id].cmd = 0; fts[id].ncalls = 0;
+    waiting[id] = 0; sem_init(&exit_sem[id], 0, 0);
     return pthread_create(&fts[id].th, NULL, ft_main, (void *)(intptr_t)id);
 }
 int ft_join(int id) { int r = pthread_join(fts[id].th, NULL); fts[id].started = 0; return r; }
@@ -82,6 +92,17 @@ int ft_result(int id) { return fts[id].result; }
 int ft_ncalls(int id) { return fts[id].ncalls; }
 int ft_seen_after(int id) { return fts[id].seen_after; }
 void ft_set_callbacks(int (*on_idle)(int), int (*cb)(int, int)) { g_on_idle = on_idle; g_cb = cb; }
+int ft_is_waiting(int id) { return waiting[id]; }
+/* the way a C library tears down its worker pool: from a libc atexit handler, i.e. AFTER
+   Py_Finalize() in a normal `python script.py` run */
+static void ft_atexit_join(void)
+{
+    int i;
+    for (i = 0; i < MAXT; i++)
+        if (waiting[i]) { sem_post(&exit_sem[i]); pthread_join(fts[i].th, NULL); waiting[i] = 0; }
+    { ssize_t w = write(2, "ATEXIT-JOINED\n", 14); (void)w; }
+}
+void ft_arm_atexit(void) { static int armed; if (!armed) { armed = 1; atexit(ft_atexit_join); } }
 
 /* number of PyThreadStates of the current interpreter (declared by hand: the generated
    module is compiled with Py_LIMITED_API) */
